@@ -44,12 +44,14 @@ KNOWN = {
 
 def mc_configs(quick: bool) -> List[Tuple[str, Dict[str, Any], bool]]:
     b = c01.mc_base
-    dk = {"missing", "garbage", "dangling"}
+    dk = {"missing", "garbage", "dangling", "danglinglow"}
     c = [
         ("failed commit, then pointer lost/garbage/dangling, reopen, append", b(Prog=Raw("<- Prog_1AppCreateApp"), FaultKinds={"before"}, DamageKinds=dk, FaultBudget=2, **ONE, **FIX), True),
         ("conflicting commits on a CAS backend, then pointer damage", b(Prog=Raw("<- Prog_2App"), DamageKinds=dk, FaultBudget=1, Backend="s3cas", **FIX), True),
         ("[known finding, must fail] same root cause without a crash: a broken lock lets a second committer's recovery scan adopt the first one's in-flight metadata file",
          b(Prog=Raw("<- Prog_2App"), DamageKinds={"missing"}, FaultBudget=1, Backend="s3cas", LockKind="none", **FIX), False),
+        ("append, pointer naming a missing LOWER version, append, pointer lost, reopen, append (CAS backend)",
+         b(Prog=Raw("<- Prog_1AppCreateApp"), DamageKinds={"danglinglow", "missing"}, FaultBudget=2, Backend="s3cas", **ONE, **FIX), True),
         ("[must fail] commit that keeps its metadata file on clean failure", b(Prog=Raw("<- Prog_1AppCreateApp"), FaultKinds={"before"}, DamageKinds=dk, FaultBudget=2, **ONE, **dict(FIX, FixOrphanMeta=False)), False),
         ("[known finding, must fail] stale pointer", b(Prog=Raw("<- Prog_1AppCreateApp"), DamageKinds={"stale"}, FaultBudget=1, **ONE, **FIX), False),
         ("[known finding, must fail] crash after metadata write + lost pointer", b(Prog=Raw("<- Prog_CrashThenOpen"), DamageKinds={"missing"}, CrashOK=True, FaultBudget=2, **FIX), False),
@@ -106,7 +108,7 @@ def run(ctx: Ctx) -> None:
         kinds = sorted(DAMAGE_BYTES)
         r = rng(ctx.seed, "c10")
         for backend in ("local", "s3cas"):
-            scn = Scenario(f"hint-damage-{backend}", [A("c1", "committer", [{"t": "append"}, {"t": "create"}, {"t": "append"}]), rd], backend=backend)
+            scn = Scenario(f"hint-damage-{backend}", [A("c1", "committer", [{"t": "append"}, {"t": "create"}, {"t": "append"}, {"t": "create"}, {"t": "append"}]), rd], backend=backend)
             steps = l1.solo_steps(scn)
             jobs: List[Tuple[str, Any]] = []
             first_op = steps["c1"] // 2
@@ -117,6 +119,8 @@ def run(ctx: Ctx) -> None:
             for kind in kinds:      # every concrete byte string at least once, after a successful commit too
                 jobs.append(("list", [["until", "c1", 1], ["env", "damage_" + kind], ["c1", 400], ["r1", 400]]))
                 jobs.append(("list", [["until", "c1", 2], ["env", "damage_" + kind], ["c1", 400], ["r1", 400]]))
+                # damaged, committed on, damaged again (lost): what the first commit wrote must win the second recovery
+                jobs.append(("list", [["until", "c1", 1], ["env", "damage_" + kind], ["until", "c1", 3], ["env", "damage_missing"], ["c1", 400], ["r1", 400]]))
             traces = l1.run_many(scn, jobs)
             for t in traces:
                 if t.get("harness_error"):
